@@ -14,6 +14,11 @@ CLAIMED = {
         design_ref="DESIGN.md section 5, C03; section 3.1 G1-G3",
         note="Trusted: Coq kernel + vm_compute; the Python translator (each generated arm is re-run against the real code per operator); operator identification by name between wasmparser and wasm-encoder; f32/f64 as bit patterns. Known finding excluded explicitly in the statement: memarg offset >= 2^32 (with refutation witness). No axioms.",
         technique="Coq proof by case analysis over translator-generated decode/encode tables + per-operator differential enumeration evaluated in Coq"),
+    "C16": dict(
+        text="Coq theorems on executable explicit-stack models of dfs_in_order and dfs_pre_order_mut: for every arena denoting a tree (any shape, any depth) the iterative in-order machine yields exactly the recursive in-order callback log (each instruction once in program order, sequence start/end events properly nested, each entity operand once); the mutable traversal terminates within |tree| pops, visits a permutation of the tree's sequences (each exactly once) and reports each entity operand once. The per-instruction callback shape (visited fields, skip_visit, default hook bodies of Visitor/VisitorMut) is regenerated from src/ir/mod.rs and crates/macro on every run, so a default hook that recurses makes the 'exactly once' lemma unprovable. The machines are tied to the code by comparing complete callback logs of recording visitors on every function of generated modules inside Coq; an independent oracle counts visits against the emitted binary.",
+        design_ref="DESIGN.md section 5, C16; T-dfs",
+        note="Trusted: Coq kernel + vm_compute; hand-written machine models tied by callback-log comparison; translator for the hook shapes. Partial: call-stack growth is a property of the Rust text (the model is iterative by construction); visitors that mutate the tree are outside the model. No axioms.",
+        technique="Coq proof: explicit-stack machine = recursive specification by nested induction with arbitrary continuation; generated hook-shape constants; differential callback logs evaluated in Coq"),
 }
 
 PENDING_REASON = "check not yet built in this snapshot (construction in progress per DESIGN.md section 10); an executable Coq model is planned, so this is not a claim that the technique cannot apply"
@@ -44,7 +49,7 @@ def main():
             "guard": "walrus_verif",
             "enable": "RUSTFLAGS=\"--cfg walrus_verif\" (set by vlib/core.py when building /verif/harness, which path-depends on /repo)",
             "baseline_off_cmd": "cd /repo && cargo test --workspace --no-fail-fast --offline",
-            "source_commits": ["c05ee2b"],
+            "source_commits": ["c05ee2b", "5f29fc0"],
             "add_only": True,
         },
         "engines": [{
